@@ -75,6 +75,10 @@ def gen_frame_truth(rng, d, coord, cellkind, N, K, fmtstyle, origin_kind):
         raw = rng.random((N, 3))
         if rng.random() < 0.2 and N:
             raw[rng.integers(0, N)] = 0.0
+        if rng.random() < 0.25 and N:
+            # atoms that left the cell since the last re-wrap: scaled values slightly or well outside [0,1)
+            exc = rng.random((N, 3)) < 0.3
+            raw = np.where(exc, raw + rng.choice([-1.0, 1.0], size=(N, 3)) * rng.uniform(0.0, 0.9, size=(N, 3)), raw)
     elif coord == "xu":
         raw = rlo + (rng.uniform(-3, 4, size=(N, 3))) @ Hfull
     else:  # wrapped style
